@@ -353,6 +353,78 @@ def judge(rep, evs, cal):
         print(f"NOTE: {more} further failing batches not itemised")
 
 
+
+# ----------------------------------------------------------------------------- refinement level: Parser.tla vs the real parser
+
+def _concretise_elem(e):
+    cls, m, pct = e["cls"], e["m"], e["pct"]
+    if cls == "int":
+        return m // 1000 if m >= 0 else -((-m) // 1000)
+    if cls == "bool":
+        return bool(m)
+    if cls == "float":
+        return m / 1000.0
+    if cls == "none":
+        return None
+    if cls == "junk":
+        return "abc"
+    v = m / 1000.0
+    txt = str(int(v)) if m % 1000 == 0 else repr(v)
+    return txt + ("%" if pct else "")
+
+
+def parser_refinement(rep, t, rnd):
+    _init()
+    r3, seqs3 = vlib.tlc_enumerate("Parser", "MC_Parser_len3.cfg", "sq")
+    seqs = [s for s in seqs3 if len(s) == 3] + [s for s in seqs3 if len(s) in (0, 1, 2)][:60]
+    r4, sims = vlib.tlc_simulate("Parser", "MC_Parser.cfg", 2500 if t == "quick" else 40000, 4, vlib.seed() + 5)
+    for b in sims:
+        if b and len(b[-1].get("sq", ())) == 4:
+            seqs.append(b[-1]["sq"])
+    rep.add_model("Parser.tla generator (all 3-sequences over 24 representative elements)", r3, "abstract tuple/list inputs replayed into the parser")
+    rep.add_model("MC_Parser (all sequences of length <= 4)", vlib.check_model("Parser", "MC_Parser.cfg", timeout=900),
+                  "transcription sanity: Total, ValidSetsSane, IntTripleIsItself") if t == "thorough" else None
+    evs = []
+    for k, sq in enumerate(seqs):
+        elems = [dict(e) for e in sq]
+        vals = [_concretise_elem(e) for e in elems]
+        value = tuple(vals) if k % 2 else list(vals)
+        bg = (255, 255, 255)
+        bgarg = None
+        if len(vals) == 4 and k % 3 == 0:
+            bg = (rnd.randrange(256), rnd.randrange(256), rnd.randrange(256))
+            bgarg = bg
+        raised = ""
+        try:
+            obs = parse(value, bgarg) if k % 4 else via_color(value, "#%02x%02x%02x" % bg if bgarg else None)
+        except Exception as ex:       # parse()/via_color() swallow library errors; this is for harness trouble only
+            obs, raised = [], type(ex).__name__
+        evs.append({"seq": elems, "bg": list(bg), "obs": obs, "raised": raised, "value": repr(value)})
+    B = 64
+    traces = [evs[i:i + B] for i in range(0, len(evs), B)]
+    cfg = "SPECIFICATION TSpec\nPOSTCONDITION KitPost\nCHECK_DEADLOCK FALSE\n"
+    agg = vlib.validate_traces("TrParser", traces, cfg=cfg)
+    rep.states += agg["distinct"]
+    rep.transitions += agg["generated"]
+    drift = [b for b in agg["bad"] if any(x.startswith("D_") for x in b["incon"])]
+    rep.extra["refinement_sequences_checked_against_Parser_tla"] = len(evs)
+    if drift:
+        singles, origin = [], []
+        for b in drift[:20]:
+            for j, e in enumerate(traces[b["tid"]]):
+                singles.append([e]); origin.append((b["tid"], j))
+        r2 = vlib.validate_traces("TrParser", singles, cfg=cfg)
+        n = 0
+        for b2 in r2["bad"]:
+            tid, j = origin[b2["tid"]]
+            rep.drift += 1
+            n += 1
+            if n <= 6:
+                e = traces[tid][j]
+                print(f"DRIFT module=Parser {b2['incon']} value={e['value']} bg={e['bg']} observed={e['obs']}")
+    rep.extra["refinement_sequences_mismatching"] = rep.drift
+
+
 def main():
     t = vlib.tier()
     rnd = random.Random(vlib.seed() * 15485863 + 7)
@@ -373,6 +445,7 @@ def main():
         if s:
             rep.sample(s, cap=8)
     planes(rep, t, rnd)
+    parser_refinement(rep, t, rnd)
     return rep.finish()
 
 
